@@ -389,7 +389,8 @@ def seq_access(eng, seq, st, node):
             # python iterates by index over the live list
             v = eng.list_get(s, seq, idx)
             if is_ref_kind(v.k):
-                s.assume(z3.And(v.t >= 0, v.t < s.heap.bound('el:ref')))
+                b = s.heap.bound('el:ref')
+                s.assume(z3.And(v.t >= 0, v.t < s.heap.alloc, z3.Implies(seq.t < b, v.t < b)))
             return v
         return get, n
     if isinstance(k, tuple) and k[0] == 'pylist':
@@ -576,7 +577,7 @@ def st_For(eng, node, st):
     if d.kind == 'range' and isinstance(node.target, ast.Name):
         idxname = node.target.id
     else:
-        idxname = '_k%d' % ordn
+        idxname = '_k%s' % ordn
     st.env[idxname] = vint(d.start)
     if d.kind != 'range' or idxname.startswith('_k'):
         st.env['_k'] = st.env[idxname]
